@@ -148,6 +148,17 @@ def _check_constancy_of_constant_references(expression, source_file_name, errors
     if not ir_util.is_constant_type(expression.type):
         referred_name = expression.constant_reference.canonical_name
         referred_object = ir_util.find_object(referred_name, ir)
+        referred_location = referred_object.source_location
+        if (
+            referred_location is None
+            or referred_location.is_synthetic
+            or referred_location.start.line == 0
+        ):
+            # Generated fields such as `$size_in_bytes` have no location of
+            # their own: point at the structure they belong to.
+            referred_location = ir_util.find_parent_object(
+                referred_name, ir
+            ).source_location
         errors.append(
             [
                 error.error(
@@ -157,7 +168,7 @@ def _check_constancy_of_constant_references(expression, source_file_name, errors
                 ),
                 error.note(
                     referred_name.module_file,
-                    referred_object.source_location,
+                    referred_location,
                     "{} is not constant.".format(referred_name.object_path[-1]),
                 ),
             ]
